@@ -9,7 +9,7 @@ TECH = ('contract-based deductive verification: own ast->z3 VC generator (pyvc) 
 
 PROPS = {
     'C19': {
-        'modules': ['contracts.fsindex'],
+        'modules': ['contracts.fsindex', 'contracts.fs_format', 'contracts.fs_iter'],
         'lemmas': ['contracts.fsindex:lemma_order'],
         'level': 'proof',
         'bounded': [
@@ -33,16 +33,21 @@ PROPS = {
         'bounded': [
             {'func': 'ZODB.BaseStorage:BaseStorage.new_oid<sessions>',
              'bound': 'one scripted session on FileStorage (allocate, store, restore ids 0x1fe/0x2ff/0x100ff, '
-                      'abort, reopen, pack) with 300+ allocations; 50 allocations on MappingStorage and DemoStorage'},
+                      'abort, reopen, pack) with 300+ allocations; allocations BETWEEN restore of adjacent ids and the vote; '
+                      '50 allocations on MappingStorage and DemoStorage; DemoStorage: id issued, stored, aborted, '
+                      'then a scripted random redraw landing on it'},
         ],
         'text': 'new_oid is proved to return old counter + 1 and to advance the counter, reading and writing it '
                 'inside one critical section of the storage lock; store is proved to raise the counter to any '
                 'larger stored oid; read_index is proved to return an oid >= every key of the rebuilt index; '
                 'FileStorage.pack is proved (frame, every path) not to touch the counter when it installs the packed index; '
                 'lemma C20.fresh: under OIDINV (counter >= every present or issued id) the result is fresh. '
-                'MappingStorage/DemoStorage allocation and restore/pack preservation only bounded.',
-        'note': 'Thread schedules are reduced to lock ownership (T3). restore(), pack swap and DemoStorage probing '
-                'are covered only by the bounded session, not proved.',
+                'FileStorage.restore proved to raise the counter to a larger restored oid AT ONCE (before the vote); '
+                'DemoStorage.new_oid proved to return an id with no revision in either layer and not issued before, and '
+                'tpc_abort / tpc_finish to keep the issued set (an aborted store does not free an id). '
+                'MappingStorage allocation only bounded.',
+        'note': 'Thread schedules are reduced to lock ownership (T3). Termination of DemoStorage\'s random probing is '
+                'not proved.',
         'design_ref': 'DESIGN.md section 5 C20',
     },
     'C04': {
@@ -67,10 +72,12 @@ PROPS = {
                 'to choose a tid later than every earlier one whatever the clock returns; read_index proved to '
                 'return the committed end and the tid of the last accepted transaction; thorough tier only: '
                 'read_index proved to rebuild the index as "every oid -> its LAST record below the committed end" '
-                '(nested-loop invariant over the record tiling).',
+                '(nested-loop invariant over the record tiling); MappingStorage.loadBefore and DemoStorage.loadBefore proved '
+                'against ordered-map / two-layer models (greatest revision strictly below the bound, least one at or above '
+                'as end); FileIterator._scan_forward/_scan_backward proved to stop at the first transaction with tid >= start.',
         'note': 'RI (chains) is assumed by the query contracts; its preservation by finish is argued by lemma over '
-                'the store/vote/finish postconditions only in part; iterator/history/undoLog, MappingStorage and '
-                'DemoStorage queries and the index rebuilt by read_index are covered by the bounded stand-in only.',
+                'the store/vote/finish postconditions only in part; the record iterator, history/undoLog, the other '
+                'MappingStorage queries and (quick tier) the index rebuilt by read_index are covered by the bounded stand-in only.',
         'design_ref': 'DESIGN.md section 5 C04',
     },
     'C01': {
@@ -122,13 +129,19 @@ PROPS = {
         'bounded': [
             {'func': 'ZODB:<storages>.store<conflict-scenarios>',
              'bound': 'file/mapping/demo storage x {stale writer, current writer, stale after removal, '
-                      'readCurrent on changed object}'},
+                      'readCurrent on changed object}; connection level on file and demo storage: resolvable counter whose '
+                      'base revision is packed away while the writer\'s transaction is open; readCurrent + concurrent '
+                      'change with no / an earlier-savepoint / a pre-join-savepoint rollback before the commit'},
         ],
         'text': 'FileStorage.store proved: normal exit only if the object is new, or the caller\'s serial equals '
                 'the tid of the current committed record, or the stored data is the resolver\'s result for '
                 '(oid, committed serial, old serial, data) and the oid is reported; ConflictError leaves staging '
-                'untouched; deleteObject likewise; the commit lock is held from tpc_begin to finish/abort.',
-        'note': 'MappingStorage/DemoStorage store and Connection readCurrent bookkeeping: bounded / C16 / C11 only. '
+                'untouched; deleteObject likewise; the commit lock is held from tpc_begin to finish/abort; '
+                'tryToResolveConflict proved to hand the resolver the state of the revision the WRITER STARTED FROM '
+                '(loadSerial(oid, oldSerial)) - a revision that cannot be loaded ends in ConflictError, never in a merge '
+                'against another base; Connection.commit proved to check every remaining readCurrent oid, and '
+                'Connection._abort (also run by savepoint rollbacks) proved to keep the declared read dependencies.',
+        'note': 'MappingStorage store and Connection.readCurrent itself: bounded only; DemoStorage.store: proved (C16). '
                 'Schedules beyond lock ownership not explored.',
         'design_ref': 'DESIGN.md section 5 C03',
     },
@@ -178,7 +191,9 @@ PROPS['C16'] = {
             'finds the first change), store compares the serial with the merged current revision and hands the '
             'resolver (oid, merged serial, caller serial, data), new_oid returns an id with no revision in either '
             'layer and not issued before, tpc_begin/abort/finish keep LOCKINV and involve only the changes layer; '
-            'every path is shown to call only read-only methods on the base.',
+            'every path is shown to call only read-only methods on the base; history proved to be the changes\' entries '
+            'followed by the base\'s, cut at the requested size; an aborted store leaves the ids handed out remembered as '
+            'issued.',
     'note': 'Assumes A-ISTORAGE for the two layers (incl. that a tid given to tpc_begin becomes the tid of the '
             'transaction) and A-TIMESTAMP for utils.newTid. LAYER_ORDER (base tids < changes tids) is assumed of the '
             'state and proved to be ESTABLISHED for every new transaction by tpc_begin (finding F9, fixed). Termination '
@@ -194,7 +209,8 @@ PROPS['C02'] = {
         {'func': 'ZODB.DB:DB<multi-connection-programs>',
          'bound': 'mapping and file storage x (3 fixed + 60 (thorough: 600) random) sequential programs of <=16 steps '
                   'over 3 connections / 3 objects (read, write, commit, abort, close+reopen from the pool) against a '
-                  'snapshot model; NO thread schedules'},
+                  'snapshot model; the fixed and the first 20 random programs again with a FROZEN wall clock (adjacent tids: '
+                  'last + 1 = the exclusive bound); NO thread schedules'},
     ],
     'text': 'Sequential contracts + lock ownership + call ordering: poll_invalidations proved to set the snapshot '
             'bound to max(storage last tid, delivered tid)+1 and to drain the pending set (or recreate it for the '
@@ -203,7 +219,10 @@ PROPS['C02'] = {
             'oids under the lock; tpc_finish of the MVCC instance and of FileStorage proved to deliver invalidations '
             'to every other registered instance from inside the storage\'s finish, before the data becomes loadable '
             'and inside the reader pool\'s write lock; _abort proved to drop pooled reader buffers; newTransaction '
-            'proved to apply the polled invalidations (or flush the whole cache) before returning.',
+            'proved to apply the polled invalidations (or flush the whole cache) before returning; the MVCC instance\'s '
+            'store and storeBlob proved to add the oid to the set invalidated at finish; MappingStorage.loadBefore proved '
+            '(over an ordered-map model of its BTrees) to return the greatest revision STRICTLY below the exclusive bound '
+            'and the least one at or above it as end.',
     'note': 'NOT covered: the schedule quantifier. Lock-protected regions are treated as atomic (T3); a breakage '
             'visible only as a race that keeps every sequential contract and lock-ownership obligation true is not '
             'detected by this family. The instance registry is unrolled with three members. FilePool is an assumed '
@@ -219,15 +238,25 @@ PROPS['C15'] = {
         {'func': 'ZODB.DB:DB.open<historical-points>',
          'bound': 'mapping and file storage; 10 commits with a controlled clock; every point opened as at=tid, '
                   'before=tid+1, naive-UTC datetime, aware datetime +05:30 / -08:00; connections held across later '
-                  'commits with emptied caches and re-opened from the pool; commit refused; future point refused'},
+                  'commits with emptied caches and re-opened from the pool; commit refused; future points refused (far future, '
+                  'one hour ahead, and - with the clock a day later - stamp-after-last + 1, last + 1 as at); the two '
+                  'largest accepted bounds open; two databases: cross-database reference followed from a historical '
+                  'connection (partner bound, partner read-only, partner database idle since)'},
     ],
     'text': 'getTID proved: at (8 bytes) maps to the next stamp after at, before to itself, both to ValueError, '
             'datetimes are converted through their UTC time tuple; the historical adapter (built by running its '
             'real constructor) proved to load exactly loadBefore(oid, before)[:2] with POSKeyError for None, to '
             'report no invalidations, and new_oid/pack/store to raise ReadOnlyError; the bound is assigned only in '
-            'the constructor (module-wide frame); lemma: commits made later have tids not below the bound.',
-    'note': 'DB.open\'s future check, Connection._commit\'s ReadOnlyHistoryError and the historical pool are covered '
-            'by the bounded harness only. TimeStamp is an assumed contract (A-TIMESTAMP).',
+            'the constructor (module-wide frame); lemma: commits made later have tids not below the bound; DB.open proved '
+            'to refuse (ValueError, nothing opened) EXACTLY the bounds greater than the newest tid and than the stamp '
+            'following it, and otherwise to hand out a connection constructed with / pooled under the normalised bound, '
+            'opened with the caller\'s transaction manager, pools touched under the database lock; '
+            'Connection.get_connection proved to open partner databases with the same transaction manager at the same '
+            'historical moment (own bound, or just after the partner\'s newest transaction) and never with a bound the '
+            'partner refuses as future (finding F27, fixed).',
+    'note': 'Connection._commit\'s ReadOnlyHistoryError and the pool classes themselves are covered by the bounded '
+            'harness only (the pools are opaque objects with pop/push/availableGC in the DB.open contract). TimeStamp '
+            'and utils.newTid are assumed contracts (A-TIMESTAMP).',
     'design_ref': 'DESIGN.md section 5 C15',
 }
 
@@ -265,14 +294,19 @@ PROPS['C13'] = {
          'bound': 'FileStorage+blob_dir and BlobStorage(MappingStorage): storeBlob then abort before vote / after vote / '
                   'finish; foreign-transaction abort with a blob in flight; DB level on FileStorage: create, rewrite, '
                   'undo aborted after vote, undo committed, rewrite, pack (keep_old on/off): set of *.blob files == set '
-                  'of committed blob records and bytes read back'},
+                  'of committed blob records and bytes read back; refused finish (foreign handle) then abort; two connections: '
+                  'a rewritten blob is seen by the other connection at its next boundary and can be appended to'},
     ],
     'text': 'Over a ghost blob namespace (oid, tid) -> file: _blob_storeblob proved to put exactly one file in place '
             'under (oid, tid), consume the working file and list the pair as dirty; _blob_tpc_abort proved (loop '
             'invariant) to remove exactly the dirty files and empty the list; FileStorage._abort / BaseStorage.tpc_abort '
             'proved to do so in EVERY phase (also before the vote); _finish_finish proved to forget the list and keep '
             'the files; the BlobStorage wrapper proved to clean up only for the transaction in progress and to be '
-            'without effect for a foreign one.',
+            'without effect for a foreign one, and - when the wrapped storage REFUSES the finish - to keep the dirty list '
+            'for the abort that follows; MVCCAdapterInstance.storeBlob proved to add the blob\'s oid to the set '
+            'invalidated at finish; blob.copyTransactionsFromTo proved to restore every record exactly once, as a blob '
+            '(private complete copy of the source file) whenever the data is a blob record and the source has the file, '
+            'whatever kind of record carries the data.',
     'note': 'Assumes A-BLOBFS (namespace model of the blob directory, injective file names). Blob handling inside '
             'undo (_txn_undo_write, BlobStorage.undo), pack (copyDataRecords blob branch, _packUndoing/_packNonUndoing) '
             'and Blob objects (consumeFile, _uncommitted) is covered by the bounded harness only.',
@@ -290,16 +324,26 @@ PROPS['C17'] = {
                   '(undo records, empty transaction): copyTransactionsFrom file->file and fsrecover of the undamaged '
                   'file compared transaction by transaction; damage grid: ~30 offsets x {1,17,200} bytes of 0xff and '
                   'truncation, each recovered with a 20 s alarm: every transaction ending before the damage present, '
-                  'only input transactions, order kept'},
+                  'only input transactions, order kept; iterator(start, stop) for every pair of tid boundaries; incremental copy '
+                  '(first k, then from last + 1) and partial copy into an empty destination for every k; blob history '
+                  '(undone rewrites) copied with blob directories; MappingStorage and DemoStorage sources'},
     ],
     'text': 'fsrecover.scan proved to TERMINATE on every input (strictly decreasing variants on both loops) and to '
             'return 0 or a position behind pos; fsrecover.read_txn_header proved to accept EXACTLY the header '
             'conditions of the format (complete header, length fits the file, length >= header length, status in '
             '\" up\", matching redundant length, no time-stamp reduction), to skip undone transactions, and to end '
             'with EOF on a checkpointed tail; FileStorage._data_find proved (loop invariant over the record tiling of '
-            'the hinted transaction) to return the LAST record of the oid or 0.',
-    'note': 'BaseStorage.copy, blob.copyTransactionsFromTo, FileStorage.restore, the iterators and fsrecover.recover '
-            'as a whole are covered by the bounded harness only; fsrecover.truncate is an assumed contract.',
+            'the hinted transaction) to return the LAST record of the oid or 0; FileStorage.restore proved to stage exactly '
+            'one record with the GIVEN serial, prev = current committed record, the data or a back pointer to the identical '
+            'record of the hinted transaction (a hint naming an absent transaction is ignored: finding F28, fixed) or a '
+            'zero pointer, and to raise the oid counter at once; FileIterator._scan_forward/_scan_backward proved (over '
+            'the transaction tiling, tids growing) to stop at the FIRST transaction with tid >= start; '
+            'blob.copyTransactionsFromTo proved: every transaction begun under its own tid/status, every record restored '
+            'exactly once with its oid, tid, data and hint (as a blob iff it is one and the source has the file), voted '
+            'and finished.',
+    'note': 'BaseStorage.copy, FileIterator.__next__/_skip_to_start, the record iterator and fsrecover.recover as a '
+            'whole are covered by the bounded harness only; fsrecover.truncate, _txn_find (at restore\'s call site) and the '
+            'source iterator of copyTransactionsFromTo (A-ITER) are assumed contracts.',
     'design_ref': 'DESIGN.md section 5 C17',
 }
 
@@ -333,7 +377,8 @@ PROPS['C10'] = {
     'bounded': [
         {'func': 'ZODB.ConflictResolution:<resolution-through-connections>',
          'bound': 'file and demo storage: two concurrent writers on a resolvable counter (arguments recorded), resolver '
-                  'raising, class without resolver, objects holding a strong and a weak reference to one target in both '
+                  'raising (RuntimeError; AttributeError followed by an ordinary conflict on the same class), class without '
+                  'resolver, objects holding a strong and a weak reference to one target in both '
                   'orders; FileStorage: undoMultiple of two of three transactions on one resolvable object, both orders'},
     ],
     'text': 'tryToResolveConflict proved as a dataflow over uninterpreted pickling functions, for every path: the '
@@ -344,9 +389,11 @@ PROPS['C10'] = {
             'ten reference spellings of serialize.py (oid, weak flag, database name, data preserved, BadClass replaced '
             'by its (module, name) pair); persistent_load proved to hand out one reference object per SPELLING; the '
             'call sites FileStorage.store and DemoStorage.store proved to pass (oid, committed serial, caller serial, '
-            'data) and to report the oid as resolved.',
-    'note': 'Assumes A-PICKLE and A-RESOLVER (zodbpickle and the class code are uninterpreted). Connection.tpc_vote '
-            '(ghostifying resolved objects) and the undo call site are covered by the bounded harness / C06.',
+            'data) and to report the oid as resolved; a class is remembered as unresolvable (process-wide cache) ONLY when '
+            'it offers no resolver - a resolver that itself fails with AttributeError fails that commit alone; '
+            'Connection.tpc_vote proved to turn every object reported as resolved into a ghost.',
+    'note': 'Assumes A-PICKLE and A-RESOLVER (zodbpickle and the class code are uninterpreted). The undo call site is '
+            'covered by C06 / the bounded harness.',
     'design_ref': 'DESIGN.md section 5 C10',
 }
 
@@ -355,19 +402,26 @@ PROPS['C14'] = {
     'lemmas': [],
     'level': 'other',
     'explanation': 'proved: the classification loops of referencesf/get_refs over every reference spelling of '
-                   'serialize.py and the constructor of the conflict-resolution reference for the same spellings; '
+                   'serialize.py, the constructor of the conflict-resolution reference for the same spellings, the weak '
+                   'reference loader and the cache reset of a connection; '
                    'bounded (labelled): round trips of random object graphs through the real pickler',
     'bounded': [
         {'func': 'ZODB.serialize:<object-graphs>',
          'bound': '3 fixed + 60 (thorough: 600) random graphs of <=7 persistent nodes (sharing, cycles, list/dict/tuple '
                   'nesting, __getnewargs__ classes, weak references before/after the strong one, cross-database '
                   'reference, unreachable object); stored iff reachable, referencesf(record) == ordinary references with '
-                  'multiplicity, no dangling reference, isomorphic load with one object per oid'},
+                  'multiplicity, no dangling reference, isomorphic load with one object per oid; resetCaches() + re-opened '
+                  'pooled connection: get(oid) is the object reached by reference; weak reference into a database that is '
+                  'not configured never yields a local object'},
     ],
     'text': 'Mixed level (not claimed as proof of the whole statement): PROVED by generated VCs - referencesf and '
             'get_refs append an oid (str oids encoded back to bytes, class info kept or None) for exactly the ordinary '
             'spellings `oid` and `(oid, class)` in pickle order and for none of the weak / multi-database list forms, '
-            'appending to a list passed in; PersistentReference decodes every spelling. BOUNDED only - the first '
+            'appending to a list passed in; PersistentReference decodes every spelling; '
+            'ObjectReader.load_persistent_weakref binds a loaded weak reference to the connection of the database it '
+            'names (own connection only if it names none; NO data manager when that database is not configured); '
+            'Connection._resetCache gives the connection one new empty cache of the same size AND switches its '
+            'ObjectReader to it (CACHE-SHARED: one object per id whether reached by get() or by reference). BOUNDED only - the first '
             'sentence of the property (graph round trip through zodbpickle, ObjectWriter.persistent_id, ObjectReader '
             'loaders, broken classes): random graphs through the real code.',
     'note': 'Everything inside zodbpickle and persistent (C code) is outside; A-NOLOAD assumed. persistent_id and the '
@@ -381,10 +435,11 @@ PROPS['C06'] = {
     'level': 'proof',
     'bounded': [
         {'func': 'ZODB.DB:DB.undoMultiple<undo-histories>',
-         'bound': 'FileStorage through DB: 13 fixed scenarios (undo of last change / of a creation / with an unrelated '
+         'bound': 'FileStorage through DB: 14 fixed scenarios (undo of last change / of a creation / with an unrelated '
                   'later change / with a mergeable later change / two mergeable ones in one undo, both orders / with a conflicting later change (refused, unchanged) / '
                   'two transactions on one object in one undo in both orders, then undo of that undo / two objects / '
-                  'undo of undo / after reopen / second connection across its boundary) + 40 (thorough: 400) random '
+                  'undo of undo / after reopen / second connection across its boundary / stale id of a PACKED transaction '
+                  '(refused, unchanged)) + 40 (thorough: 400) random '
                   'histories of <=6 transactions over 3 objects with one random undo, against a model'},
     ],
     'text': 'FileStorage._transactionalUndoRecord proved as a decision table for every record layout satisfying the '
@@ -395,7 +450,9 @@ PROPS['C06'] = {
             '(oid, current tid, undone tid, bytes of the revision before, bytes of the CURRENT record) and its answer is '
             'returned as new data; every other path raises UndoError with nothing staged; an object already staged by '
             'the same undo is compared against the staged record. The MVCC undo adapter is proved to hand the undone '
-            'oids to the invalidation callback from inside the storage\'s finish, before the data becomes loadable.',
+            'oids to the invalidation callback from inside the storage\'s finish, before the data becomes loadable. '
+            '_txn_undo_write proved to refuse (UndoError, nothing staged, record loop never reached) every transaction '
+            'whose status is not the undoable one - packed, undone, checkpoint.',
     'note': 'FileStorage.undo/_txn_undo/_txn_undo_write (transaction walk, writing the records, blob copies), '
             'DB.undo/TransactionalUndo resource manager, undoLog/undoInfo and MappingStorage are covered by the '
             'bounded harness only. Assumes A-RESOLVER for the class merge.',
@@ -409,8 +466,9 @@ PROPS['C07'] = {
     'modules': PACK_MODULES,
     'lemmas': [],
     'level': 'other',
-    'explanation': 'proved: the reachability pass of the FileStorage packer (what is kept); bounded (labelled): the '
-                   'copy phase and the observable before/after equivalence, MappingStorage.pack',
+    'explanation': 'proved: the reachability pass of the FileStorage packer (what is kept) and the per-transaction '
+                   'record selection / record image of the copy phase; bounded (labelled): the rest of the copy phase and '
+                   'the observable before/after equivalence, MappingStorage.pack',
     'bounded': [
         {'func': 'ZODB.FileStorage.FileStorage:FileStorage.pack<before-after>',
          'bound': '7 fixed histories (undo records pointing across the pack time from a garbage object, two-level '
@@ -436,7 +494,12 @@ PROPS['C07'] = {
             'end-of-file test at the frontier of the copy against the REAL end of the data file (transactions committed '
             'while it ran are consumed; rely: other threads append only while the lock is free); that FileStorage.pack then '
             'installs the packed file, its index and end position is proved under C08. '
-            'BOUNDED only: the CONTENT written by the copy phase (copyToPacktime/copyDataRecords/copyOne/PackCopier), '
+            'Copy phase: copyDataRecords proved (loop invariant over the record tiling of the transaction) to hand to '
+            'writePackedDataRecord EXACTLY the records the GC keeps, and to write the transaction header iff one is kept; '
+            'writePackedDataRecord proved to append the record image with prev = 0, no back pointer, the data in full '
+            '(or a zero pointer) and to file the new position in the index; PackCopier.copy (real body) proved to append '
+            'exactly one record and ALWAYS to file it in the transaction index. '
+            'BOUNDED only: the rest of the copy phase (copyToPacktime, copyOne\'s record loop, back-pointer resolution), '
             'blobs, MappingStorage.pack/DemoStorage.pack and the statement as observed through load/iterator/undo - by the '
             'before/after harness (incl. a commit from another thread in each packer phase).',
     'note': 'Assumes RI-TILING of the input file, A-REFERENCESF (classification proved in C14), A-DICT-OF-LISTS, the list '
